@@ -276,6 +276,13 @@ func genHttpConv(r *Rand, tier string, emit func(sx.Sx)) {
 				respFraming = "close" // close-delimited body ends the connection
 			}
 			resp := sx.L(sx.A("resp"), sx.N(st), sx.S(reasons[st]), sx.N(minor), hdrs(), sx.A(respFraming), sx.B(respBody))
+			if r.Chance(4) && st != 204 {
+				// HEAD: the response carries the Content-Length of the GET response and no body
+				rh := hdrs()
+				rh.List = append(rh.List, sx.L(sx.S("Content-Length"), sx.S("5")))
+				req = sx.L(sx.A("req"), sx.S("HEAD"), sx.S(targets[r.Intn(len(targets))]), sx.N(minor), hs, sx.A("none"), sx.B(nil))
+				resp = sx.L(sx.A("resp"), sx.N(st), sx.S(reasons[st]), sx.N(minor), rh, sx.A("none"), sx.B(nil))
+			}
 			exs = append(exs, sx.L(sx.A("ex"), req, resp))
 		}
 		emit(sx.L(exs...))
